@@ -249,11 +249,55 @@ def sec_state_roundtrip(chk):
                 fails.append(dict(case=f"seed={seed} pre={pre}", detail="outer generator state changed by the context"))
             if len(rnd._sseq) != depth0 or len(rnd._rng) != depth0:
                 fails.append(dict(case=f"seed={seed} pre={pre}", detail="stack depth changed"))
+    # histories on one Context *object*: entered twice in a row, after an exception, nested inside another context and inside itself --
+    # every entry starts the stream of its seed afresh (the generator is created at entry, not at construction)
+    for seed in (0, 7, 12345):
+        for history in ("twice", "after an exception", "nested in another context", "second entry after draws outside"):
+            n += 1
+            ctx = rnd.Context(seed)
+            ref = np.random.default_rng(np.random.SeedSequence(seed)).normal(0., 1., (4,))
+            draws = []
+            try:
+                if history == "twice":
+                    for _ in range(3):
+                        with ctx:
+                            draws.append(rnd.Random.normal(np.float64, (4,)))
+                elif history == "after an exception":
+                    try:
+                        with ctx:
+                            draws.append(rnd.Random.normal(np.float64, (4,)))
+                            rnd.Random.normal(np.float64, (2,))
+                            raise KeyError("x")
+                    except KeyError:
+                        pass
+                    with ctx:
+                        draws.append(rnd.Random.normal(np.float64, (4,)))
+                elif history == "nested in another context":
+                    with ctx:
+                        draws.append(rnd.Random.normal(np.float64, (4,)))
+                    with rnd.Context(seed + 99):
+                        rnd.Random.normal(np.float64, (3,))
+                        with ctx:
+                            draws.append(rnd.Random.normal(np.float64, (4,)))
+                else:
+                    with ctx:
+                        draws.append(rnd.Random.normal(np.float64, (4,)))
+                        rnd.Random.normal(np.float64, (5,))
+                    rnd.current_rng().normal()
+                    with ctx:
+                        draws.append(rnd.Random.normal(np.float64, (4,)))
+            except Exception as e:  # noqa: BLE001
+                fails.append(dict(case=f"seed={seed}, one Context object entered {history}", detail=f"{type(e).__name__}: {e}"[:200]))
+                continue
+            if not all(np.array_equal(dv, ref) for dv in draws):
+                fails.append(dict(case=f"seed={seed}, one Context object entered {history}", detail="a later entry does not restart the stream of the seed"))
+            if len(rnd._sseq) != depth0 or len(rnd._rng) != depth0:
+                fails.append(dict(case=f"seed={seed}, one Context object entered {history}", detail="stack depth changed"))
     chk.under_contract(rnd.getState)
     chk.under_contract(rnd.setState)
     chk.bounded("real numpy generators: draws in a context equal default_rng(SeedSequence(seed)); getState/setState round trip; "
                 "outer generator untouched, also after an inner context left by an exception",
-                bound="seeds {0,1,12345} x {0,1,3} draws before entering", cases=n, nontrivial=n, failures=fails,
+                bound="seeds {0,1,12345} x {0,1,3} draws before entering; seeds {0,7,12345} x 4 histories on one Context object", cases=n, nontrivial=n, failures=fails,
                 samples=[dict(seed=12345, pre=3)], kind="B-runtime")
 
 
